@@ -8,6 +8,20 @@ to a fresh copy of /repo under /dev/shm (removed afterwards); nothing is written
 into /verif/evidence.  With --tests the baseline suite is run on the mutant too (it must pass).
 """
 import argparse, os, shutil, subprocess, sys, tempfile, time
+
+
+def run_check(cmd, env, limit=2400):
+    """Run a check in its own process group; kill the whole group when it exceeds `limit` seconds (rc 124)."""
+    import signal
+    p = subprocess.Popen(cmd, env=env, stdout=subprocess.PIPE, stderr=subprocess.STDOUT, text=True, start_new_session=True)
+    try:
+        out, _ = p.communicate(timeout=limit)
+        return p.returncode, out
+    except subprocess.TimeoutExpired:
+        os.killpg(p.pid, signal.SIGKILL)
+        out, _ = p.communicate()
+        return 124, (out or '') + '\nTIMEOUT after %d s' % limit
+
 sys.path.insert(0, os.path.dirname(os.path.abspath(__file__)))
 from mutants import MUTANTS
 V = os.path.dirname(os.path.dirname(os.path.abspath(__file__)))
@@ -42,10 +56,11 @@ for m in MUTANTS:
             if props and prop not in props: continue
             env = dict(os.environ, VERIF_REPO=repo, VERIF_OUT=os.path.join(root, 'out'), VERIF_SEED=a.seed)
             t0 = time.time()
-            r = subprocess.run([os.path.join(V, 'check'), prop, '--tier', a.tier], env=env, stdout=subprocess.PIPE,
-                               stderr=subprocess.STDOUT, text=True)
+            rc_, out_ = run_check([os.path.join(V, 'check'), prop, '--tier', a.tier], env)
+            import types
+            r = types.SimpleNamespace(returncode=rc_, stdout=out_)
             sigs = [l.split('sig=')[1].split(' ')[0] for l in r.stdout.splitlines() if l.startswith('violation:')]
-            verdict = {0: 'MISSED', 1: 'caught', 2: 'HARNESS-ERROR'}.get(r.returncode, 'rc=%d' % r.returncode)
+            verdict = {0: 'MISSED', 1: 'caught', 2: 'HARNESS-ERROR', 124: 'TIMEOUT'}.get(r.returncode, 'rc=%d' % r.returncode)
             rows.append((m['id'], prop, verdict, tests, '%.0fs' % (time.time() - t0), ';'.join(sigs)[:150]))
             print('%-28s %-4s %-14s %-10s %5s  %s' % rows[-1]); sys.stdout.flush()
             if r.returncode == 2: print(r.stdout[-1500:])
